@@ -45,14 +45,19 @@ def main():
         env["ARTAP_VERIF_EXPECT_REPO"] = copy
         env["VERIF_OUT"] = os.path.join(work, "out")
         for cid in a.checks:
+            import signal
+            import types
+            pr = subprocess.Popen([os.path.join(VERIF, "check"), cid, "--tier", a.tier], cwd=VERIF, env=env, stdout=subprocess.PIPE,
+                                  stderr=subprocess.PIPE, text=True, start_new_session=True)
             try:
-                r = subprocess.run([os.path.join(VERIF, "check"), cid, "--tier", a.tier], cwd=VERIF, env=env, capture_output=True,
-                                   text=True, timeout=int(os.environ.get("MUTANT_TIMEOUT", "1500")), start_new_session=True)
+                so, se = pr.communicate(timeout=int(os.environ.get("MUTANT_TIMEOUT", "1500")))
             except subprocess.TimeoutExpired:
+                os.killpg(pr.pid, signal.SIGKILL)
+                pr.communicate()
                 print("%s TIMEOUT (the check did not terminate on the mutated code)" % cid)
-                subprocess.run("pkill -9 -f 'ARTAP_VERIF_EXPECT_REPO=%s' ; true" % copy, shell=True)
                 rc_all = 1
                 continue
+            r = types.SimpleNamespace(returncode=pr.returncode, stdout=so, stderr=se)
             viol = [l for l in r.stdout.splitlines() if l.startswith("violation key=")]
             status = {0: "missed", 1: "DETECTED", 2: "CHECK-BROKEN"}.get(r.returncode, "rc=%d" % r.returncode)
             print("%s %s %s" % (cid, status, (viol[0][:230] if viol else r.stdout.strip().splitlines()[-1][:230] if r.stdout.strip() else r.stderr[-200:])))
